@@ -42,6 +42,9 @@ CLAIMS = {
     "C08": dict(cat="other", ref="DESIGN.md 5/C08",
         text="partial: ProtocolContext.__init__ caps (retry limit 3, buffer 32); _check_buffer_for_cmd (nothing dequeued while a future is pending, queue order, done futures skipped, tx_limit = 1 + min(max_retries, limit), exactly one send); and, by executing the real set_state / effect_state / expire_state_on_timeout / _send_cmd step by step against typestate contracts of the loop, futures and queue, for every loss pattern over the attempts and all max_retries 0..5: at most 1 + min(max_retries,3) transmissions, exactly that many before a failure, waits of 1/2/4/8 x the timeout, the arriving packet completes the send, nothing is sent after the caller is answered -- SMT-discharged",
         note="trusted: pyvc semantics; asyncio loop (FIFO call_soon, tasks), Future and PriorityQueue are typestate contracts written in the harness (assumption A13); one command at a time (the single-context invariant is structural: _fut pending blocks dequeue); NOT decided: that the budget is reached when the caller's timeout allows (liveness), real-time spacing, start order under equal priority AND equal dt.now(), concurrent callers timing out while queued"),
+    "C11": dict(cat="other", ref="DESIGN.md 5/C11",
+        text="partial: per-call contracts of the real duty-cycle wrapper (the closure produced by the real decorator) from an arbitrary bucket state -- top-up creates no bits and caps at 60 s worth, a write waits exactly (size - level)/FILL or goes at once, exactly one debit per write even when the write raises, frame cost 330 + 10 bits/char -- and of MqttTransport.write_frame (tokens capped, over-budget write dropped not queued, debt slept off, one token per accepted write), over real-valued time and bits; plus the syntactic obligation that PortTransport.write_frame is wrapped; the window bound follows by the telescoping lemma stated in DESIGN.md (paper lemma)",
+        note="trusted: pyvc semantics incl. float operations over-approximated by the relative-error bound; perf_counter and asyncio.sleep are contracts (A14: non-decreasing real time, a sleep lasts at least its argument); rely/guarantee across awaits (other callers between a call's check and its debit) only through the paper lemma's 'pending' term; NOT decided: eventual, once-only, in-order delivery; the MIN_INTER_WRITE_GAP semaphore"),
 }
 
 NA = {
